@@ -19,7 +19,10 @@ OPS = ["Add", "Mul", "Relu", "Identity", "If"]
 class Universe:
     """All IR objects ever created in one case, numbered by creation order."""
 
-    def __init__(self, setup: int = 1):
+    def __init__(self, setup: int = 1, safe: bool = False):
+        # safe=True: op variants named by known findings are replaced by their valid-argument
+        # form (exclusion by construction), so that long histories survive.
+        self.safe = safe
         self.handles = []  # Graph or Function (editing handles)
         self.graphs = []  # every Graph object (incl. function bodies)
         self.nodes = []
@@ -224,7 +227,10 @@ def _new_node(u, opi, ins, nout, s, h):
 @op("new_node_outs", "iWLh")
 def _new_node_outs(u, opi, ins, outs, h):
     graph = None if h % 4 == 3 else u.H(h)
-    n = ir.Node("", OPS[opi % len(OPS)], [u.VN(i) for i in ins[:3]], outputs=u.VL(outs[:3]), graph=graph)
+    outs = u.VL(outs[:3])
+    if u.safe:  # known finding: a graph input/initializer is accepted as node output
+        outs = [v for v in outs if not (v.is_graph_input() or v.is_initializer())]
+    n = ir.Node("", OPS[opi % len(OPS)], [u.VN(i) for i in ins[:3]], outputs=outs, graph=graph)
     u.reg_node(n)
     return n
 
